@@ -620,3 +620,33 @@ pub(crate) fn k_seek_filter() {
     }
     vk_assert!(last.is_some(), "the first frame (sample 0) is always kept");
 }
+
+// ------------------------------------------------------------------ write_residuals: partition order legality on very short blocks
+// contract: whatever partition layout the search picks, the partition order written is legal for the block
+// (RFC 9639 §9.2.7: block divisible by 2^po and block >> po > predictor order) — the region where a block is
+// at most twice the predictor order.
+macro_rules! k_write_residuals_short {
+    ($name:ident, $n:expr, $order:expr, $maxpo:expr, $unw:expr) => {
+        #[kani::proof]
+        #[kani::unwind($unw)]
+        #[kani::stub(f64::log2, stub_log2)]
+        #[kani::stub(f64::ceil, stub_ceil)]
+        pub(crate) fn $name() {
+            let mut r = [0i32; $n];
+            let mut i = 0;
+            while i < $n { r[i] = any_i64_within(16) as i32; i += 1; }
+            let options = EncoderOptions { max_partition_order: $maxpo, mid_side: false, seektable_interval: None, max_lpc_order: None,
+                window: Window::Rectangle, exhaustive_channel_correlation: false, use_rice2: false };
+            let mut t: Tape<16> = Tape::new();
+            let res = write_residuals(&options, &mut t, $order, &r);
+            vk_undecided!(!t.overflow, "field tape capacity exceeded");
+            if res.is_ok() {
+                let po = t.f[1].val as u32;
+                vk_assert!(t.f[1].kind == K_U && t.f[1].width == 4, "4-bit partition order field");
+                vk_assert!(spec::part_ok(($n + $order) as u32, $order as u32, po), "partition order written is not legal for this block size and predictor order");
+            }
+            kani::cover!(res.is_ok(), "residuals written");
+        }
+    };
+}
+k_write_residuals_short!(k_write_res_short_b4_o2, 2, 2, 2, 6);
